@@ -45,6 +45,13 @@ SVC_IIDS = {SVC_INFO: 1, SVC_BULB: 9, SVC_PAIRING: 19}
 PACK = {"bool": "?", "uint8": "B", "uint16": "H", "uint32": "I", "uint64": "Q", "int": "i", "float": "f"}
 
 
+
+def _raising_listener():
+    def bad(ev):
+        raise RuntimeError("a consumer's callback fails")
+
+    return bad
+
 def nonce(counter: int) -> bytes:
     return b"\x00\x00\x00\x00" + struct.pack("<Q", counter)
 
@@ -569,7 +576,11 @@ async def c13_part(ctx) -> None:
             rng = ctx.grng("C13.ble", idx)
             w = BleWorld(rng)
             notes = []
+            # other consumers share the pairing: some of them raise in their callbacks (before and after the one judged here)
+            for _ in range(2):
+                w.pairing.dispatcher_connect(_raising_listener())
             w.pairing.dispatcher_connect(lambda ev: notes.append(ev) if ev else None)
+            w.pairing.dispatcher_connect(_raising_listener())
             def fold_back(ev, pairing=w.pairing):
                 # a realistic consumer (Home Assistant does this): fold every notified change into the pairing's model, so a later
                 # write of the value the model already holds is still a write the accessory accepted
